@@ -87,6 +87,14 @@ type DevCfg struct {
 	// around a *bytes.Reader.  A library may special-case concrete reader
 	// types; the interface contract is the same.  Chunks are ignored.
 	Std int `json:"std,omitempty"`
+
+	// GC > 0: the first Read that is asked for bytes runs GC complete
+	// garbage collections and lets the finalizers they queued finish before
+	// it delivers anything - the collector as a fault INSIDE the call, at the
+	// one point where the library is waiting for its caller.  Whatever the
+	// library (or the caller) no longer references at that instant is gone
+	// when the bytes arrive.
+	GC int `json:"gc,omitempty"`
 }
 
 // StdKinds is the number of values Std takes (0 = the device itself).
@@ -115,6 +123,7 @@ type Device struct {
 	stdLeft func() int
 
 	chunkPos int
+	gcDone   bool
 	failed   bool
 	pend     bool // error pending delivery on the next call
 	prng     []byte
@@ -250,6 +259,10 @@ func (d *Device) Read(p []byte) (int, error) {
 	if d.Yield != nil {
 		d.Yield()
 	}
+	if d.Cfg.GC > 0 && !d.gcDone && len(p) > 0 {
+		d.gcDone = true
+		CollectGarbage(d.Cfg.GC)
+	}
 	n, err := d.read(p)
 	rec := ReadRec{Req: len(p), N: n}
 	if err != nil {
@@ -365,6 +378,9 @@ func (c DevCfg) Summary() string {
 	}
 	if c.Helper {
 		s += " filled-by-helper-goroutine+stack-move"
+	}
+	if c.GC > 0 {
+		s += fmt.Sprintf(" gc-x%d-inside-first-read", c.GC)
 	}
 	if c.ErrAt >= 0 {
 		k := [...]string{"?", "EOF", "ErrUnexpectedEOF", "custom", "temporary", "PANIC"}[c.ErrKind]
